@@ -158,7 +158,10 @@ PeerData(s, len, pad, es, accept) ==
     /\ len >= 0 /\ pad >= 0 /\ pad <= len
     /\ IF len > ca \/ (StreamChecked(s, accept) /\ len > RW(s) + su[s])
        THEN PeerDataRefused(s)
-       ELSE IF StreamChecked(s, accept) /\ len > RW(s)
+       ELSE IF (StreamChecked(s, accept) /\ len > RW(s)) \/ (rst[s] = "ended" /\ len > 0)
+            \* (DATA after P's own END_STREAM: E may still hold the stream open - e.g. when the
+            \*  application had closed the body before END_STREAM arrived - and refuse the frame
+            \*  against the stream window it enforces, which the spec no longer tracks for s)
             THEN PeerDataRefused(s) \/ PeerDataTaken(s, len, pad, es, accept)
             ELSE PeerDataTaken(s, len, pad, es, accept)
     /\ UNCHANGED <<W, siw, rdoff, minRefresh, dead, dev>> /\ UNCHANGED sendVars
